@@ -563,6 +563,31 @@ func (env *Env) call(n *ast.CallExpr) *Val {
 			t := env.evalType(n.Args[1])
 			_, ub, _ := e.boxFuncs(t)
 			return &Val{T: sx(ub, v.T), Ty: t}
+		case "decimal1", "decimal1val":
+			// decimal1(t, lo, hi): the float64 t is one of the values k/10,
+			// lo <= k <= hi, as strconv.ParseFloat returns them (correctly
+			// rounded). decimal1val(t, lo, hi) is that k.
+			v := env.eval(n.Args[0])
+			lo, _ := strconv.Atoi(env.eval(n.Args[1]).T)
+			hi, _ := strconv.Atoi(env.eval(n.Args[2]).T)
+			if hi-lo > 5000 || hi < lo {
+				specErr("decimal1: bad range")
+			}
+			var alts []string
+			val := e.intConst(tInt, "0")
+			for k := hi; k >= lo; k-- {
+				f, err := strconv.ParseFloat(fmt.Sprintf("%d.%d", k/10, k%10), 64)
+				if err != nil {
+					specErr("decimal1: %v", err)
+				}
+				c := eq(v.T, fpConst(f))
+				alts = append(alts, c)
+				val = ite(c, e.intConst(tInt, fmt.Sprint(k)), val)
+			}
+			if id.Name == "decimal1" {
+				return &Val{T: or(alts...), Ty: tBool}
+			}
+			return &Val{T: val, Ty: tInt}
 		case "unfold":
 			// unfold(f(args)): the definitional instance f(args) == body[args]
 			ce, ok := n.Args[0].(*ast.CallExpr)
@@ -617,7 +642,17 @@ func (env *Env) call(n *ast.CallExpr) *Val {
 				if isFloat(v.Ty) {
 					return &Val{T: v.T, Ty: types.Typ[types.Float64]}
 				}
-				specErr("float64() of non-float in spec")
+				// integer -> float64, round to nearest even (as Go does)
+				if e.bv {
+					if v.Ty == tUInt {
+						return &Val{T: sx("(_ to_fp 11 53)", "RNE", sx("to_real", v.T)), Ty: types.Typ[types.Float64]}
+					}
+					if isUnsigned(v.Ty) {
+						return &Val{T: sx("(_ to_fp_unsigned 11 53)", "RNE", v.T), Ty: types.Typ[types.Float64]}
+					}
+					return &Val{T: sx("(_ to_fp 11 53)", "RNE", v.T), Ty: types.Typ[types.Float64]}
+				}
+				return &Val{T: sx("(_ to_fp 11 53)", "RNE", sx("to_real", v.T)), Ty: types.Typ[types.Float64]}
 			}
 			if !e.bv {
 				return &Val{T: v.T, Ty: tInt}
